@@ -78,6 +78,45 @@ type Flow struct {
 	Edge func(cond ast.Expr, taken bool, f Facts)
 	In   map[*cfg.Block]Facts
 	Out  map[*cfg.Block]Facts
+	// InlineDefers keeps the legacy view in which a defer statement is shown to Node like any other node (the
+	// lock engine models deferred unlocks itself). By default a deferred call is executed where it really runs:
+	// at every exit of the function that is reached after the defer statement, last registered first.
+	InlineDefers bool
+}
+
+const flowDeferFact = "\x00defer|"
+
+// deferredAt returns the deferred calls registered on every (must) or some (may) path to a point with facts f,
+// last registered first, as expression statements.
+func (fl *Flow) deferredAt(f Facts) []ast.Node {
+	var ds []*ast.DeferStmt
+	walkNoLit(fl.Fn.Body, func(n ast.Node) bool {
+		if d, ok := n.(*ast.DeferStmt); ok && f[flowDeferFact+fl.P.Pos(d.Pos())] {
+			ds = append(ds, d)
+		}
+		return true
+	})
+	out := make([]ast.Node, 0, len(ds))
+	for i := len(ds) - 1; i >= 0; i-- {
+		out = append(out, &ast.ExprStmt{X: ds[i].Call})
+	}
+	return out
+}
+
+// transfer applies Node to one CFG node under the defer model.
+func (fl *Flow) transfer(n ast.Node, st Facts) {
+	if d, ok := n.(*ast.DeferStmt); ok && !fl.InlineDefers {
+		// the arguments are evaluated now, the call runs at exit
+		st[flowDeferFact+fl.P.Pos(d.Pos())] = true
+		return
+	}
+	if fl.Node != nil {
+		fl.Node(n, st)
+	}
+}
+
+func (fl *Flow) isExit(b *cfg.Block) bool {
+	return len(b.Succs) == 0
 }
 
 // BlockCond returns the branch condition of a two-way block (nil if none, e.g. range loops).
@@ -139,8 +178,11 @@ func (fl *Flow) Run() {
 		inq[b] = false
 		st := fl.In[b].Clone()
 		for _, n := range b.Nodes {
-			if fl.Node != nil {
-				fl.Node(n, st)
+			fl.transfer(n, st)
+		}
+		if fl.isExit(b) && !fl.InlineDefers && fl.Node != nil {
+			for _, dn := range fl.deferredAt(st) {
+				fl.Node(dn, st)
 			}
 		}
 		fl.Out[b] = st
@@ -187,9 +229,19 @@ func (fl *Flow) Visit(visit func(b *cfg.Block, n ast.Node, before Facts)) {
 		}
 		st := in.Clone()
 		for _, n := range b.Nodes {
+			if _, isDefer := n.(*ast.DeferStmt); isDefer && !fl.InlineDefers {
+				fl.transfer(n, st)
+				continue
+			}
 			visit(b, n, st)
-			if fl.Node != nil {
-				fl.Node(n, st)
+			fl.transfer(n, st)
+		}
+		if fl.isExit(b) && !fl.InlineDefers {
+			for _, dn := range fl.deferredAt(st) {
+				visit(b, dn, st)
+				if fl.Node != nil {
+					fl.Node(dn, st)
+				}
 			}
 		}
 	}
